@@ -118,6 +118,12 @@ Proof.
   destruct (Z.eqb_spec c 32); [lia|]. destruct (Z.leb_spec 9 c); destruct (Z.leb_spec c 13); try lia; reflexivity.
 Qed.
 
+Lemma first_is_digit_dec c r : 48 <= c <= 57 -> first_is_digit 10 (c :: r) = true.
+Proof.
+  intros H. unfold first_is_digit, digit_of.
+  destruct (Z.leb_spec 48 c); [|lia]. destruct (Z.leb_spec c 57); [|lia]. cbn [andb]. apply Z.ltb_lt. lia.
+Qed.
+
 (* str2int(int2str(x)) = x for every 64-bit integer, and the text fits the buffer *)
 Theorem int2str_str2int_roundtrip x : in_i64 x ->
   exists s, nl_int2str x = Some s /\ nl_str2int10 s = Some x /\ Z.of_nat (length s) <= 21.
@@ -146,6 +152,9 @@ Proof.
       unfold nl_str2int10, nl_str2int. rewrite skip_spaces_digit by lia.
       change (45 =? 45) with true. cbn [orb]. change (10 =? 0) with false. cbn iota.
       change ((2 <=? 10) && (10 <=? 36)) with true. cbn [negb].
+      assert (Hfd : first_is_digit 10 ds = true).
+      { destruct ds as [|c0 r0]; [contradiction|]. inversion Hdig as [|? ? Hc0 Hr0]; subst. apply first_is_digit_dec. lia. }
+      rewrite Hfd. cbn [negb].
       rewrite Hread. cbn [skip_spaces]. f_equal.
       unfold wrap64, u64, two63, two64 in *. lia.
   - exists ds. split.
@@ -156,6 +165,7 @@ Proof.
       unfold nl_str2int10, nl_str2int. rewrite skip_spaces_digit by lia.
       destruct (Z.eqb_spec c 45); [lia|]. destruct (Z.eqb_spec c 43); [lia|]. cbn [orb].
       change (10 =? 0) with false. cbn iota. change ((2 <=? 10) && (10 <=? 36)) with true. cbn [negb].
+      rewrite (first_is_digit_dec c r) by lia. cbn [negb].
       rewrite Hread. cbn [skip_spaces]. f_equal.
       unfold wrap64, two63, two64 in *. rewrite Z.abs_eq by lia. unfold in_i64, minint, maxint, two63 in Hx. lia.
 Qed.
@@ -177,16 +187,10 @@ Proof.
   intros _ _. exists c, x. split; [left; reflexivity|exact E].
 Qed.
 
-(* REFUTED as the code is: a sign, a base prefix or blanks alone are read as 0 *)
-Lemma str2int_sound_refuted : ~ str2int_sound.
+(* after 4928697 the digit loop must move: whatever str2int accepts contains a digit *)
+Lemma str2int_sound_holds : str2int_sound.
 Proof.
-  intros H. destruct (H 0 [45] 0 eq_refl) as (c & x & [Hc|[]] & Hd). subst c. discriminate Hd.
-Qed.
-
-(* what holds of the code as it is: a result other than 0 comes from a string with a digit *)
-Lemma str2int_sound_partial base s v : nl_str2int base s = Some v -> v <> 0 -> has_digit s.
-Proof.
-  unfold nl_str2int. destruct s as [|c0 s0]; [discriminate|]. set (s := c0 :: s0).
+  intros base s v. unfold nl_str2int. destruct s as [|c0 s0]; [discriminate|]. set (s := c0 :: s0).
   destruct (skip_spaces s) as [|c r] eqn:Esk; [discriminate|].
   assert (Hin : forall y, In y (c :: r) -> In y s) by (intros y Hy; apply skip_spaces_in; rewrite Esk; exact Hy).
   set (body := if (c =? 45) || (c =? 43) then r else c :: r).
@@ -207,11 +211,8 @@ Proof.
     destruct ((bc =? 120) || (bc =? 88)); [intros y Hy; right; right; exact Hy|tauto]. }
   destruct pb as [b body'] eqn:Epb. cbn [snd] in Hp.
   destruct (negb ((2 <=? b) && (b <=? 36))); [discriminate|].
-  destruct (str2int_digits b 0 body') as [n rest] eqn:Ed.
-  destruct (skip_spaces rest); [|discriminate].
-  intros [= <-] Hv.
-  assert (Hn : n <> 0).
-  { intros ->. apply Hv. destruct (c =? 45); reflexivity. }
-  destruct (str2int_digits_moved _ _ _ _ _ Ed Hn) as (y & x & Hy & Hd).
-  exists y, x. split; [apply Hb, Hp, Hy|exact Hd].
+  destruct (first_is_digit b body') eqn:Efd; cbn [negb]; [|discriminate].
+  intros _. unfold first_is_digit in Efd. destruct body' as [|y t]; [discriminate|].
+  destruct (digit_of y) as [x|] eqn:Ed; [|discriminate].
+  exists y, x. split; [apply Hb, Hp; left; reflexivity|exact Ed].
 Qed.
